@@ -781,6 +781,16 @@ func runC14(c *harness.Ctx) {
 		R.Cover("C14/structured")
 	}
 	R.Eval(ns)
+	// ---- structure-aware hostile lengths ----
+	if c.Batch == 0 {
+		validTok, _ := libTokenFromRef(&refcodec.Token{Type: 1, Value: big.NewInt(5), Properties: []byte{1, 0}, Meta: &refcodec.MetaData{Nonce: 3, Name: []byte("n"), URIs: [][]byte{[]byte("u")}}}).Marshal()
+		hl := hostileLengthInputs(validTok)
+		for _, in := range hl {
+			decodeAnything(R, in)
+		}
+		R.CoverN("C14/hostile-length-decodes", int64(len(hl)))
+		R.Eval(len(hl))
+	}
 	// ---- decode of all byte strings up to length L ----
 	nd := 0
 	for n := 0; n <= L; n++ {
@@ -796,6 +806,37 @@ func runC14(c *harness.Ctx) {
 	}
 	R.CoverN("C14/small-decodes", int64(nd))
 	R.Eval(nd)
+}
+
+// hostileLengthInputs: every tag (fields 1..8 x wire types 0,1,2,5) followed by varints near the
+// int / int32 / int64 boundaries, alone, nested in the metadata field and appended to a valid
+// encoding: the decoders' length arithmetic must not wrap.
+func hostileLengthInputs(valid []byte) [][]byte {
+	varint := func(v uint64) []byte {
+		var b []byte
+		for v >= 0x80 {
+			b = append(b, byte(v)|0x80)
+			v >>= 7
+		}
+		return append(b, byte(v))
+	}
+	lens := []uint64{0, 1, 127, 128, 1<<31 - 1, 1 << 31, 1<<32 - 1, 1 << 32, 1<<62 - 1, 1 << 62, 1<<63 - 1, 1 << 63, 1<<63 + 1, ^uint64(0) - 1, ^uint64(0)}
+	var out [][]byte
+	for field := 1; field <= 8; field++ {
+		for _, wt := range []int{0, 1, 2, 5} {
+			tag := varint(uint64(field<<3 | wt))
+			for _, l := range lens {
+				in := append(append([]byte{}, tag...), varint(l)...)
+				out = append(out, in, append(append([]byte{}, in...), 1, 2, 3), append(append([]byte{}, valid...), in...))
+				// nested in field 4 (metadata) of the token message
+				nested := append([]byte{0x22}, varint(uint64(len(in)))...)
+				out = append(out, append(nested, in...))
+				// overlong varint for the same value (11 bytes) and an unterminated one
+				out = append(out, append(append([]byte{}, tag...), 0xff, 0xff, 0xff, 0xff, 0xff, 0xff, 0xff, 0xff, 0xff, 0xff, 0x01), append(append([]byte{}, tag...), 0xff, 0xff, 0xff))
+			}
+		}
+	}
+	return out
 }
 
 func decodeAnything(R *harness.Reporter, buf []byte) {
@@ -1002,8 +1043,54 @@ func runC12(c *harness.Ctx) {
 	}
 	R.Eval(nrt)
 
+	// ---- every appender of the tx-data builder: what it appends parses back to the value given ----
+	if c.Batch == 0 {
+		expectArgs := func(what string, data string, fn string, want [][]byte) {
+			f, args, err := cp.ParseData(data)
+			if err != nil || f != fn || !argsEqual(args, want) {
+				R.Violate("C12:builder-appender:"+what, fmt.Sprintf("%s built %q which parses to (%q, %x, %v); the values given were (%q, %x)", what, data, f, args, err, fn, want), data)
+			}
+			R.Cover("C12/builder-appenders")
+		}
+		for v := 0; v < 256; v++ {
+			expectArgs("Byte", txDataBuilder.NewBuilder().Func("f").Byte(byte(v)).ToString(), "f", [][]byte{{byte(v)}})
+			expectArgs("IssueESDT", txDataBuilder.NewBuilder().IssueESDT("tok", "TCK", int64(v), byte(v)).ToString(), "issue", [][]byte{[]byte("tok"), []byte("TCK"), big.NewInt(int64(v)).Bytes(), {byte(v)}})
+		}
+		ints := []int64{0, 1, 127, 128, 255, 256, 65535, 65536, 1<<31 - 1, 1 << 31, 1<<32 - 1, 1 << 32, 1<<62 + 3, 1<<63 - 1}
+		for _, v := range ints {
+			expectArgs("Int64", txDataBuilder.NewBuilder().Func("f").Int64(v).ToString(), "f", [][]byte{big.NewInt(v).Bytes()})
+			expectArgs("Int", txDataBuilder.NewBuilder().Func("f").Int(int(v)).ToString(), "f", [][]byte{big.NewInt(v).Bytes()})
+			expectArgs("BigInt", txDataBuilder.NewBuilder().Func("f").BigInt(new(big.Int).Lsh(big.NewInt(v), 70)).ToString(), "f", [][]byte{new(big.Int).Lsh(big.NewInt(v), 70).Bytes()})
+			expectArgs("TransferESDT", txDataBuilder.NewBuilder().TransferESDT("TOK-1", v).ToString(), FTransfer, [][]byte{[]byte("TOK-1"), big.NewInt(v).Bytes()})
+			expectArgs("TransferESDTNFT", txDataBuilder.NewBuilder().TransferESDTNFT("TOK-1", int(v&0xffff), v).ToString(), FNFTXfer, [][]byte{[]byte("TOK-1"), big.NewInt(v & 0xffff).Bytes(), big.NewInt(v).Bytes()})
+			expectArgs("BurnESDT", txDataBuilder.NewBuilder().BurnESDT("TOK-1", v).ToString(), FBurn, [][]byte{[]byte("TOK-1"), big.NewInt(v).Bytes()})
+		}
+		for _, str := range []string{"", "a", "true", "with space", "\x00\xff", "ÿ@"} {
+			expectArgs("Str", txDataBuilder.NewBuilder().Func("f").Str(str).ToString(), "f", [][]byte{[]byte(str)})
+			expectArgs("Bytes", txDataBuilder.NewBuilder().Func("f").Bytes([]byte(str)).Bytes(nil).ToString(), "f", [][]byte{[]byte(str), {}})
+		}
+		for _, bv := range []bool{true, false} {
+			w := []byte("false")
+			if bv {
+				w = []byte("true")
+			}
+			expectArgs("Bool", txDataBuilder.NewBuilder().Func("f").Bool(bv).ToString(), "f", [][]byte{w})
+			bb := txDataBuilder.NewBuilder().Func("f").CanFreeze(bv).CanWipe(bv).CanPause(bv).CanMint(bv).CanBurn(bv).CanTransferNFTCreateRole(bv).CanAddSpecialRoles(bv)
+			expectArgs("Can*", bb.ToString(), "f", [][]byte{[]byte("canFreeze"), w, []byte("canWipe"), w, []byte("canPause"), w, []byte("canMint"), w, []byte("canBurn"), w, []byte("canTransferNFTCreateRole"), w, []byte("canAddSpecialRoles"), w})
+		}
+		expectArgs("True/False", txDataBuilder.NewBuilder().Func("f").True().False().ToString(), "f", [][]byte{[]byte("true"), []byte("false")})
+		// Clear / GetLast / SetLast / ToBytes
+		b := txDataBuilder.NewBuilder().Func("g").Byte(1).Byte(2)
+		if b.GetLast() != "02" {
+			R.Violate("C12:builder-appender:GetLast", "GetLast does not return the last element: "+b.GetLast(), nil)
+		}
+		b.SetLast("0a0b")
+		expectArgs("SetLast", string(b.ToBytes()), "g", [][]byte{{1}, {10, 11}})
+		expectArgs("Clear", b.Clear().Func("h").Byte(0).ToString(), "h", [][]byte{{0}})
+	}
+
 	// ---- ESDT-transfer parser on hostile inputs ----
-	residues := []uint64{0, 1, 2, 3, 5, 6148914691236517205, 6148914691236517206, 12297829382473034410, 12297829382473034411, 1 << 62, 1<<63 - 1, 1 << 63, ^uint64(0), ^uint64(0) - 1, ^uint64(0) / 3, ^uint64(0)/3 + 1, ^uint64(0)/3 + 2}
+	residues := []uint64{0, 1, 2, 3, 5, 0xAAAAAAAAAAAAAAAA, 0xAAAAAAAAAAAAAAAB, 0xAAAAAAAAAAAAAAAC, 0x8000000000000001, 0xFFFFFFFFFFFFFFFE, 6148914691236517205, 6148914691236517206, 12297829382473034410, 12297829382473034411, 1 << 62, 1<<63 - 1, 1 << 63, ^uint64(0), ^uint64(0) - 1, ^uint64(0) / 3, ^uint64(0)/3 + 1, ^uint64(0)/3 + 2}
 	var counts [][]byte
 	for _, v := range residues {
 		counts = append(counts, gen.U64(v))
@@ -1143,11 +1230,15 @@ func runC18(c *harness.Ctx) {
 				w, err := world.New(world.Config{NumShards: uint32(1 + cfg), ActivationEpoch: a, EnableNameChg: cfg == 1, DNS: [][]byte{gen.UserAddr(9, 0), gen.UserAddr(8, 0)}[:1+cfg%2],
 					GasMap: world.GasMapFrom(func(_, _ string, i int) uint64 { return uint64(1+cfg)*1000 + uint64(i) })})
 				if err != nil {
-					panic(err)
+					R.Violate("C18:factory-fails", "factory rejects a valid configuration: "+err.Error(), cfg)
+					return nil
 				}
 				return w
 			}
 			w := mk()
+			if w == nil {
+				continue
+			}
 			check := func(w *world.World, last *uint32, seq []uint32) {
 				for _, sh := range w.Shards {
 					for _, name := range AllFuncs {
@@ -1236,6 +1327,9 @@ func runC18(c *harness.Ctx) {
 // name's distinctive effect directly.
 func c18Probes(c *harness.Ctx) {
 	R := c.R
+	if _, err := world.New(world.Config{NumShards: 2, DNS: [][]byte{gen.UserAddr(9, 0)}}); err != nil {
+		return // reported by the registry part
+	}
 	probe := func(name string, f func(s *Scn) (bool, string)) {
 		s := NewScn(c.Rand("probe").Fork(harness.Hash64(name)), c.R, ScnOpts{Shards: 2, Enabled: []string{"C18x"}})
 		s.M.Enabled = map[string]bool{"C02": true, "C03": true, "C04": true, "C05": true, "C07": true, "C08": true}
@@ -1363,6 +1457,33 @@ func c18Probes(c *harness.Ctx) {
 		l := s.U.N.Exec(node.Call{Func: FSetName, Caller: s.U.DNS, Recipient: tgt, Args: [][]byte{[]byte("alice")}, Gas: gen.BigGas})
 		return l.OK && string(s.U.W.Account(tgt).UserName) == "alice", "user name not set"
 	})
+	// the price each name is bound to at construction: on a factory-built container that never saw
+	// a schedule change, every priced function charges its own entry of the construction schedule
+	S0 := world.GasMapFrom(baseSched)
+	for _, sc := range Scenarios() {
+		if sc.Dest || sc.OwnField == "" {
+			continue
+		}
+		s0 := scnFor(c, sc, S0, "C18x")
+		l0 := sc.Exec(s0, gen.BigGas)
+		if l0 == nil || !l0.OK {
+			continue
+		}
+		cons0, ok := node.Consumed(l0)
+		if !ok {
+			continue
+		}
+		per := map[string]uint64{}
+		if sc.PerByte != nil {
+			per = sc.PerByte(s0, l0)
+		}
+		want, exact := priceFormula(sc, per, S0)
+		if (exact && cons0 != want) || (!exact && cons0 < want) {
+			R.Violate("C18:binding-price:"+sc.Func, fmt.Sprintf("on a freshly built container %s (scenario %s) consumes %d, its own schedule entries give %d", sc.Func, sc.Name, cons0, want), s0.M.History)
+		}
+		R.Cover("C18/price-probes")
+		R.Eval(1)
+	}
 	// configuration binding: DNS set and EnableUserNameChange reach the function
 	for _, enable := range []bool{false, true} {
 		u, err := gen.NewUniverse(c.Rand("cfg"), gen.UniOpts{Shards: 1, NameChange: enable})
